@@ -4,6 +4,8 @@ import ast
 from ..model import AnalysisError
 from ..lib import (FV, alias_term, decode_new, decode_call, phi_members, is_sym, is_const, is_str, strip_stores,
                    stores_of)
+from ..lib import (reached_iff, reached_implies, implies_reached, reached_iff_any, path_term, cond_equiv, cond_implies,  # noqa: F401
+                   else_stmts, branch_stmts, context_literals)
 from ..cfg import always_raises, walk_stmts
 from ..terms import r_add, r_sub, r_mul, r_neg
 from . import common as cm
@@ -47,10 +49,13 @@ for (c_, s_) in WRITERS:
 
 
 def inplace_if(v):
-    for st in v.body:
+    for st in v.stmts():
         if isinstance(st, ast.If) and isinstance(st.test, ast.Name) and st.test.id == "inplace":
             return st
     raise AnalysisError(f"{v.f.qual}: no top-level `if inplace:` statement")
+
+
+from ..lib import else_stmts  # noqa: E402
 
 
 def bind_args(repo, callee_qual, c):
@@ -233,7 +238,7 @@ def region_inplace_corners(chk, pid, q):
     body_stmts = list(walk_stmts(ifst.body))
     st = _store_terms(v, body_stmts)
     chk.require("_pmin" in st and "_pmax" in st, f"{q}: in-place corner stores vanished")
-    news = cm.returned_news(v, cls=REGION, via=[ifst.orelse[0]] if ifst.orelse else None)
+    news = cm.returned_news(v, cls=REGION, via=[else_stmts(v, ifst)[0]] if else_stmts(v, ifst) else None)
     chk.require(news, f"{q}: copy form does not construct a Region")
     r, a = news[0]
     A, B = a.get("p1"), a.get("p2")
@@ -414,7 +419,7 @@ def region_siblings(chk, pid, only=None):
         ifst = inplace_if(v)
         body_stmts = list(walk_stmts(ifst.body))
         st = _store_terms(v, body_stmts)
-        news = cm.returned_news(v, cls=REGION, via=[ifst.orelse[0]] if ifst.orelse else None)
+        news = cm.returned_news(v, cls=REGION, via=[else_stmts(v, ifst)[0]] if else_stmts(v, ifst) else None)
         chk.require(news, f"{q}: copy form vanished")
         r, a = news[0]
         # units / dims / tolerance
@@ -444,8 +449,8 @@ def _returns_and_purity(chk, pid, v, ifst, cls):
     ok = isinstance(last, ast.Return) and last.value is not None and is_sym(v.ctx, v.ev.term(last.value, at=last), "self")
     chk.ob(f"{q}::inplace::returns-self", ok, f"{pid}.siblings", "the in-place form must return the object itself", v.f, last)
     # copy branch returns a new object
-    news = cm.returned_news(v, cls=cls, via=[ifst.orelse[0]] if ifst.orelse else None)
-    rets = [s for s in walk_stmts(ifst.orelse) if isinstance(s, ast.Return)] if ifst.orelse else []
+    news = cm.returned_news(v, cls=cls, via=[else_stmts(v, ifst)[0]] if else_stmts(v, ifst) else None)
+    rets = [s for s in walk_stmts(else_stmts(v, ifst)) if isinstance(s, ast.Return)]
     chk.ob(f"{q}::copy::returns-new", bool(news) and bool(rets), f"{pid}.siblings",
            "the copying form must return a newly constructed object", v.f, rets[0] if rets else ifst)
     # no self store outside the in-place branch
@@ -477,7 +482,7 @@ def mesh_siblings(chk, pid, only=None):
         v = FV(repo, q)
         ifst = inplace_if(v)
         inside = set(id(s) for s in walk_stmts(ifst.body))
-        copyside = set(id(s) for s in walk_stmts(ifst.orelse))
+        copyside = set(id(s) for s in walk_stmts(else_stmts(v, ifst)))
         region_calls, sub_calls = [], []
         for call, st in v.calls():
             t = v.term(call, at=st)
@@ -518,7 +523,7 @@ def mesh_siblings(chk, pid, only=None):
             if len(rc) == 1 and len(sc) == 1:
                 _same_step(chk, pid, v, q, form, rc[0], sc[0])
         # subregions ctor arg is built from those calls, region arg likewise
-        for r, a in cm.returned_news(v, cls=MESH, via=[ifst.orelse[0]] if ifst.orelse else None):
+        for r, a in cm.returned_news(v, cls=MESH, via=[else_stmts(v, ifst)[0]] if else_stmts(v, ifst) else None):
             rg = a.get("region")
             ok = rg is not None and any(v.eq(rg, v.term(x["call"], at=x["st"])) for x in region_calls)
             chk.ob(f"{q}::copy::kw=region", ok, f"{pid}.siblings", f"region={v.show(rg)[:120]}", v.f, r)
@@ -923,7 +928,7 @@ def refusal_table(chk, pid, quals=None):
     """Every documented refusal is present: for each table row there is a `raise` of the listed type that is reached exactly
     under the row's condition (path condition of the raise statement, decided as a predicate over type tests, None tests
     and comparisons).  `E` stands for the element of the enclosing loop, `D` for the setter's argument as passed."""
-    from ..lib import cond_equiv, path_term
+    from ..lib import reached_iff_any, path_term, context_literals
     repo = chk.repo
     chk.rule(f"{pid}.refusals", "malformed arguments are refused: each documented refusal (type, length, element type, ordering, "
                                 "degeneracy) is a raise reached exactly under its condition; an inverted or weakened test "
@@ -940,31 +945,35 @@ def refusal_table(chk, pid, quals=None):
             seen = []
             texts = (texts,) if isinstance(texts, str) else texts
             text = texts[0]
-            for r, name in [(r_, n_) for t_ in texts for r_, n_ in raises]:
-                if name not in exc:
-                    continue
-                par = v.cfg.parent.get(id(r))
-                at = par[0] if par else r
-                env = {}
-                for p_, f_ in v.cfg.enclosing(r):
-                    if isinstance(p_, ast.For) and "E" not in env:
-                        env["E"] = v.ctx.mk(("iter", ()), (v.term(p_.iter, at=p_),))
-                if pname:
-                    env["D"] = v.ev._sym(f"param:{pname}")
-                pt = path_term(v, r)
-                seen.append(v.show(pt)[:120])
-                for text_ in texts:
+            cands = [(r_, n_) for r_, n_ in raises if n_ in exc]
+            for text_ in texts:
+                # group the raises by the loop element they see (E) - a row speaks about one loop at most
+                groups = {}
+                for r, name in cands:
+                    env = {}
+                    for p_, f_ in v.cfg.enclosing(r):
+                        if isinstance(p_, ast.For) and "E" not in env:
+                            env["E"] = v.ctx.mk(("iter", ()), (v.term(p_.iter, at=p_),))
+                    if pname:
+                        env["D"] = v.ev._sym(f"param:{pname}")
                     if " E" in text_ and "E" not in env:
                         continue
+                    par = v.cfg.parent.get(id(r))
+                    at = par[0] if par else r
                     try:
                         want = v.spec(text_, at=at, env=env)
                     except AnalysisError:
                         continue
-                    if cond_equiv(v, pt, want):
-                        hit = r
+                    groups.setdefault(want.key(), (want, []))[1].append(r)
+                for want, rs in groups.values():
+                    got = reached_iff_any(v, rs, want)
+                    if got:
+                        hit = got[0]
                         break
                 if hit is not None:
                     break
+            if hit is None:
+                seen = [v.show(v.ev._bool("and", [path_term(v, r)] + context_literals(v, r)))[:120] for r, n_ in cands]
             chk.ob(f"{q}::refuses::{key}", hit is not None, f"{pid}.refusals",
                    f"no `raise {'/'.join(exc)}` reached exactly under `{text}`; raises of that type are reached under: {seen[:4]}",
                    v.f, hit)
@@ -1004,7 +1013,7 @@ DEFAULTS = {
 
 def defaults_table(chk, pid, quals=None):
     """argument normalisation: each replacement value is assigned exactly under its condition"""
-    from ..lib import cond_equiv, cond_implies, path_term
+    from ..lib import cond_equiv, cond_implies, path_term, reached_iff, reached_implies
     repo = chk.repo
     chk.rule(f"{pid}.defaults", "argument normalisation happens exactly when documented: None selects the default (centre, metres), "
                                 "a bare number/string is wrapped for one-dimensional use; an inverted test replaces a given "
@@ -1035,7 +1044,7 @@ def defaults_table(chk, pid, quals=None):
             alts = (condtext,) if isinstance(condtext, str) else condtext
             for st in hits:
                 pt = path_term(v, st)
-                ok_ = any(cond_equiv(v, pt, v.spec(ct_, at=st, env=env0)) for ct_ in alts)
+                ok_ = any(reached_iff(v, st, v.spec(ct_, at=st, env=env0)) for ct_ in alts)
                 chk.ob(f"{q}::normalises::{key}", ok_, f"{pid}.defaults",
                        f"`{v.src(st)}` happens under {v.show(pt)[:160]}; expected exactly under `{alts[0]}`", v.f, st)
     if quals is not None:
@@ -1048,7 +1057,7 @@ def defaults_table(chk, pid, quals=None):
             t = v.term(st.value, at=st)
             pt = path_term(v, st)
             if v.eq(t, v.spec("['x', 'y', 'z'][: self.ndim]")):
-                ok = cond_implies(v, pt, v.spec("self.ndim <= 3"), [nd]) and cond_implies(v, pt, v.spec("D is None", env={"D": v.ev._sym("param:dims")}), [nd])
+                ok = reached_implies(v, st, v.spec("self.ndim <= 3"), [nd]) and reached_implies(v, st, v.spec("D is None", env={"D": v.ev._sym("param:dims")}), [nd])
                 chk.ob("region.Region.dims.setter::default-names-cover-all-dimensions", ok, f"{pid}.defaults",
                        f"x, y, z (cut to ndim) are used under {v.show(pt)}: only regions with at most three dimensions get as "
                        "many names as dimensions this way", v.f, st)
